@@ -59,6 +59,7 @@ pub fn worker(args: &[String]) -> i32 {
         Some("digest") => c09::worker_digest(),
         Some(m) if m.starts_with("c19-") => c19::worker(args),
         Some("shard") | Some("one") if args.get(1).map(|s| s.as_str()) == Some("C10") => c10::worker(args),
+        Some("corpus") => c10::worker(args),
         _ => 2,
     }
 }
